@@ -14,6 +14,12 @@ use std::time::{Duration, Instant};
 
 pub const VERIF: &str = "/verif";
 
+/// where evidence and replay files go (FJV_OUT_DIR redirects them, used when a seeded change is
+/// evaluated against a scratch copy so that /verif/evidence keeps describing /repo)
+pub fn out_root() -> PathBuf {
+    std::env::var("FJV_OUT_DIR").map_or_else(|_| PathBuf::from(VERIF), PathBuf::from)
+}
+
 #[derive(Clone)]
 pub struct E1Def {
     pub id: &'static str,
@@ -367,7 +373,7 @@ pub fn run_shards(id: &str, tier: &str, seed: u64, n: u32, cases_per_shard: u32,
 }
 
 pub fn write_replay(id: &str, f: &FailureOut) -> PathBuf {
-    let dir = Path::new(VERIF).join("replays");
+    let dir = out_root().join("replays");
     std::fs::create_dir_all(&dir).ok();
     let h = case_hash(&f.case.to_string());
     let p = dir.join(format!("{id}-{h:016x}.json"));
@@ -389,7 +395,7 @@ pub fn write_evidence(
     violations: usize,
     more: Value,
 ) {
-    let dir = Path::new(VERIF).join("evidence");
+    let dir = out_root().join("evidence");
     std::fs::create_dir_all(&dir).ok();
     let mut cov = json!({
         "evaluations": m.evaluations,
@@ -421,7 +427,7 @@ pub fn write_evidence(
 }
 
 pub fn write_replay_raw(id: &str, v: &Value) -> PathBuf {
-    let dir = Path::new(VERIF).join("replays");
+    let dir = out_root().join("replays");
     std::fs::create_dir_all(&dir).ok();
     let p = dir.join(format!("{id}-{:016x}.json", case_hash(&v.to_string())));
     std::fs::write(&p, serde_json::to_string_pretty(v).unwrap()).ok();
@@ -429,7 +435,7 @@ pub fn write_replay_raw(id: &str, v: &Value) -> PathBuf {
 }
 
 pub fn clear_old_replays(id: &str) {
-    if let Ok(rd) = std::fs::read_dir(Path::new(VERIF).join("replays")) {
+    if let Ok(rd) = std::fs::read_dir(out_root().join("replays")) {
         for e in rd.flatten() {
             if e.file_name().to_string_lossy().starts_with(&format!("{id}-")) {
                 let _ = std::fs::remove_file(e.path());
